@@ -42,6 +42,38 @@ def brackets(m, lv, n, pos):
     return out
 
 
+def nonfinite_fields(vol):
+    """boolean per field: some stored value of some level is not finite"""
+    nf = getattr(vol, "_nonfinite", None)
+    if nf is None:
+        m = vol.m
+        nf = np.zeros(m.nfields, dtype=bool)
+        for lv in range(m.nlevels):
+            for a in m.data[lv]:
+                nf |= ~np.isfinite(a).reshape(-1, m.nfields).all(axis=0)
+        vol._nonfinite = nf
+    return nf
+
+
+def single_sample(vol, lv, n, pos, k, factor):
+    """value for a one-entry bracket (k). Beyond the outermost centres the single sample is the
+    value. On a cell centre inside the domain an implementation may still combine the sample with
+    a neighbour along the normal - of this level or of a coarser one - at weight 0 (0 x inf = NaN,
+    or inf when the weight rounds to 1e-17): fields that hold non-finite values anywhere are not
+    determined on such planes."""
+    m = vol.m
+    dx = m.dx[lv][n]
+    first = m.geo_low[n] + 0.5 * dx
+    last = m.geo_low[n] + (m.grid_sizes[lv][n] - 0.5) * dx
+    val = plane(vol, lv, n, k, factor)[1]
+    if first + 1e-7 * dx < pos < last - 1e-7 * dx:
+        nf = nonfinite_fields(vol)
+        if nf.any():
+            val = np.array(val, dtype=np.float64, copy=True)
+            val[..., nf] = np.nan
+    return val
+
+
 def plane(vol, lv, n, k, factor):
     """(coverage, values[..., nf], box ids) of level lv at normal index k, in-plane (cx, cy)
     order, expanded to the output resolution"""
@@ -55,6 +87,30 @@ def plane(vol, lv, n, k, factor):
         v = np.repeat(v, factor, axis=ax)
         b = np.repeat(b, factor, axis=ax)
     return c, v, b
+
+
+def interp(p0, p1, w1):
+    """the defining formula evaluated in IEEE arithmetic: where it has an indeterminate form
+    (0 x inf at a weight of exactly 0, inf - inf) the result is NaN = not determined. A plane within
+    rounding of a cell centre has a weight that is 0 in one evaluation order and 1e-17 in another,
+    so there every pixel with a non-finite sample is not determined either."""
+    with np.errstate(invalid="ignore"):
+        val = p0 * (1.0 - w1) + p1 * w1
+    if min(abs(w1), abs(1.0 - w1)) < 1e-6:
+        val = np.where(np.isfinite(p0) & np.isfinite(p1), val, np.nan)
+    return val
+
+
+def differs(a, e, tol):
+    """|a - e| > tol; equal infinities are equal; pixels whose expected value is NaN (stored NaN,
+    or an indeterminate form of the defining formula) are not judged"""
+    with np.errstate(invalid="ignore"):
+        return ~((a == e) | (np.abs(a - e) <= tol) | np.isnan(e))
+
+
+def scale_of(e):
+    f = np.abs(e[np.isfinite(e)])
+    return max(1.0, float(f.max())) if f.size else 1.0
 
 
 def reference(vol, n, pos):
@@ -96,11 +152,11 @@ def reference(vol, n, pos):
         S[allc] = lv
         T[anyc] = lv
         if len(br) == 1:
-            val = planes[0][1]
+            val = single_sample(vol, lv, n, pos, br[0][0], f)
         else:
             (k0, c0), (k1, c1) = br
             w1 = (pos - c0) / (c1 - c0)
-            val = planes[0][1] * (1.0 - w1) + planes[1][1] * w1
+            val = interp(planes[0][1], planes[1][1], w1)
         value[allc] = val[allc]
         # levels that have a box AT the pixel: a box whose closed normal extent contains pos
         dx = m.dx[lv][n]
